@@ -428,7 +428,8 @@ def replay_drift(inputs):
     from verif.native.synth import hopping_system
     seed = inputs['seed']
     cls = inputs.get('species_cls', 'Element')
-    traj, sites, info = hopping_system(seed, n_frames=20, n_diff=3, n_frame_atoms=4, frame_symbols=('O', 'P', 'N'), species_cls=cls, vib=0.05, hop_prob=0.05)
+    traj, sites, info = hopping_system(seed, n_frames=20, n_diff=3, n_frame_atoms=4, frame_symbols=('O', 'P', 'N'), species_cls=cls, vib=0.05, hop_prob=0.05,
+                                       interleave=bool(seed % 2))
     rng = np.random.default_rng(seed + 1)
     # add a rigid random-walk drift to everything
     g = np.cumsum(rng.normal(scale=0.01, size=(len(traj), 1, 3)), axis=0)
@@ -448,6 +449,15 @@ def replay_drift(inputs):
     def ref_drift(mask):
         d = tr.displacements
         return d[:, mask].mean(axis=1)[:, None, :]
+    # selecting several species keeps the atoms (and their coordinates) in source order
+    for sel in (['O', 'Li'], ['N', 'P', 'O'], 'Li'):
+        try:
+            ft = tr.filter(sel)
+            want = [k for k, s_ in enumerate(symbols) if s_ in (sel if isinstance(sel, list) else [sel])]
+            if [s_.symbol for s_ in ft.species] != [symbols[k] for k in want] or not np.allclose(ft.positions, tr.positions[:, want], atol=1e-12):
+                bad.append(f'filter({sel}) does not return the selected atoms in source order')
+        except Exception as e:
+            bad.append(f'filter({sel}) raised {type(e).__name__}: {e}')
     fixed = ['O', 'P', 'N']
     mask_fixed = np.array([s in fixed for s in symbols])
     for label, kw, mask in (("fixed=['O','P','N']", {'fixed_species': fixed}, mask_fixed), ("floating='Li'", {'floating_species': 'Li'}, mask_fixed),
